@@ -325,6 +325,31 @@ example :
     (occs (fun _ => false) ms unionTemplate).map eagerMembers = some [] ∧
     (occs (fun v => v == "description") ms unionTemplate).map quotedMembers = some ms := by decide
 
+/-- The alias lists EXACTLY the members: with two or more members the rendered alias contains — on
+every path, whatever the template variables are — every member once, in the order of
+`union_object.types`, and no other expression; with one member, exactly that member.
+(From the side conditions `shapeA know2 unionTemplate = [eachMember]` and `shapeA know1 unionTemplate ∈
+{[firstMember], [eachMember]}`, decided by the kernel on the generated template.) -/
+theorem union_alias_lists_exactly_members (env : String → Bool) (members : List Name)
+    (os : List Occ) (h : occs env members unionTemplate = some os) :
+    (2 ≤ members.length → os.map Occ.forget = members.map some) ∧
+    (∀ m, members = [m] → os.map Occ.forget = [some m]) := by
+  constructor
+  · intro h2
+    have hs : shapeA know2 unionTemplate = some [.eachMember] := by decide
+    have := shapeA_sound know2 env members (know2_trueOf _ h2) unionTemplate _ os hs h
+    simpa [siteForget] using this
+  · intro m hm
+    subst hm
+    have hs : (shapeA know1 unionTemplate == some [.firstMember] || shapeA know1 unionTemplate == some [.eachMember]) = true := by
+      decide
+    simp only [Bool.or_eq_true, beq_iff_eq] at hs
+    rcases hs with hs | hs
+    · have := shapeA_sound know1 env [m] know1_trueOf unionTemplate _ os hs h
+      simpa [siteForget] using this
+    · have := shapeA_sound know1 env [m] know1_trueOf unionTemplate _ os hs h
+      simpa [siteForget] using this
+
 /-- Whatever the alias evaluates eagerly is one of the union's members (nothing else of the template
 is in code), and the identifiers of its literal text are bound by `DataTypeUnion.DEFAULT_IMPORTS`. -/
 theorem union_alias_eager_names_are_members (env : String → Bool) (members : List Name)
@@ -348,7 +373,7 @@ theorem parse_order_unions_last :
 schema, kind by kind. -/
 theorem emit_order_is_permutation (defs : List Def) :
     List.Perm (emitOrder parseKinds defs) ((results parseKinds defs).map (·.name)) := by
-  have := sortLoop_perm defs.length [] (nodes parseKinds defs)
+  have := sortLoop_perm (nodes parseKinds defs).length [] (nodes parseKinds defs)
   simpa [emitOrder, emit, nodes, List.map_map, Function.comp_def] using this
 
 /-- LATE: a type that the first pass of `sort_data_models` keeps back (one of its interfaces, or the
@@ -422,6 +447,33 @@ def singleMemberWitness : List Def := [
   { name := "Boolean".toList, kind := .scalar },
   { name := "String".toList, kind := .scalar },
   { name := "Uu".toList, kind := .union, members := ["Alpha".toList] }]
+
+/-- THE FUEL SUFFICES (termination half of the ordering model): when the reference graph of the schema
+is closed and acyclic — every reference of a type (an interface it implements, the enum of a field) is
+a type of the schema of smaller rank; GraphQL validation guarantees it: interfaces cannot implement
+each other in a cycle and an enum refers to nothing — the passes of `sort_data_models` place every
+definition; the fall-back of the loop is never taken, for any number of types. -/
+theorem emit_complete_of_acyclic (defs : List Def) (rank : Name → Nat)
+    (h : ∀ d ∈ defs, ∀ r ∈ refs defs d, r = d.name ∨ ∃ d' ∈ defs, d'.name = r ∧ rank r < rank d.name) :
+    (emit parseKinds defs).2 = true := by
+  apply sortLoop_complete rank _ [] _ (Nat.le_refl _)
+  intro nd hnd r hr
+  obtain ⟨d, hd, rfl⟩ := List.mem_map.mp hnd
+  have hdd := ((mem_results parseKinds defs d).mp hd).1
+  rcases h d hdd r hr with h1 | ⟨d', hd', hn, hlt⟩
+  · exact Or.inl h1
+  · refine Or.inr (Or.inr ⟨{ name := d'.name, refs := refs defs d' }, ?_, hn, hlt⟩)
+    refine List.mem_map.mpr ⟨d', (mem_results parseKinds defs d').mpr ⟨hd', ?_⟩, rfl⟩
+    cases d'.kind <;> decide
+
+/-- non-vacuity: the schema of the refutation below is ranked by the length of … its own chain
+(`Base` 0, `Aged` 1, `Alpha` 2), and is emitted completely -/
+example : (emit parseKinds singleMemberWitness).2 = true ∧
+    ∀ d ∈ singleMemberWitness, ∀ r ∈ refs singleMemberWitness d, r = d.name ∨
+      ∃ d' ∈ singleMemberWitness, d'.name = r ∧
+        (fun n => if n = "Aged".toList then 1 else if n = "Alpha".toList then 2 else 0) r <
+        (fun n => if n = "Aged".toList then 1 else if n = "Alpha".toList then 2 else 0) d.name := by
+  decide
 
 /-- REFUTATION of the full statement (known finding C17-single-member-union): `Aged` is visited before
 `Base`, so it is late, and so is `Alpha`; the alias `Uu: TypeAlias = Alpha` is emitted by the first pass
